@@ -79,6 +79,10 @@ func c11P(s string) *string { return &s }
 // stamp: the value is extended with the state's sequence number, which is then bumped
 // (read, yield, write: an unprotected interleaving would lose the update).
 func c11Stamp(ctx context.Context, no *c11NodeObs, gid int, tag string, in string, s *C11State) string {
+	if e := c11Rec(ctx).eager; e != nil {
+		ok := e.enter(e.late[gid])
+		defer e.leave(ok)
+	}
 	seq := s.Seq
 	runtime.Gosched()
 	s.Seq = seq + 1
